@@ -177,6 +177,12 @@ func HAMTShardDataWithStat(data []byte, fanout uint64, hashType uint64, mode os.
 	typ := pb.Data_HAMTShard
 	pbdata.Type = &typ
 	pbdata.HashType = proto.Uint64(hashType)
+	if data == nil {
+		// The bitfield of an empty shard has no bytes. Keep the field present
+		// (zero length): readers such as go-unixfsnode reject a HAMTShard
+		// without a Data field.
+		data = []byte{}
+	}
 	pbdata.Data = data
 	pbdata.Fanout = proto.Uint64(fanout)
 
